@@ -52,6 +52,7 @@ class FnRec:
         self.lines = None
         self.n_requires = 0
         self.sha = None
+        self.impl = None
 
     @property
     def key(self):
@@ -245,6 +246,8 @@ def emit_fn(asm, fnrec, sig, body, contract, ret_name):
     for h in contract['hints']:
         body = insert_at_anchor(body, h['where'], h['anchor'], h['nth'], '\n'.join(h['text']))
     first = len(asm.lines) + 1
+    if fnrec.impl:
+        asm.add('impl %s {' % fnrec.impl)
     asm.add(sig)
     if contract['requires']:
         asm.add('    requires')
@@ -261,6 +264,8 @@ def emit_fn(asm, fnrec, sig, body, contract, ret_name):
     if contract['decreases']:
         asm.add('    decreases %s' % contract['decreases'])
     asm.add(body)
+    if fnrec.impl:
+        asm.add('}')
     fnrec.lines = (first, len(asm.lines))
     asm.fns.append(fnrec)
 
@@ -348,6 +353,9 @@ def assemble(unit_path, repo=REPO):
             src = rsx.Source.get(os.path.join(repo, file))
             sig, body = src.fn(name, scope)
             fnrec = FnRec(file, name, scope, kv.get('as', name), kv.get('mod'))
+            fnrec.impl = kv.get('impl')
+            if fnrec.impl:
+                fnrec.module = fnrec.impl
             if 'props' in kv:
                 fnrec.props |= set(kv['props'].split(','))
             contract = parse_contract(block, fnrec, unit_name)
@@ -358,7 +366,18 @@ def assemble(unit_path, repo=REPO):
                 if o:
                     opts[o] = True
             sig = rsx.strip_comments(sig)
+            for old, new in contract['bodyrep']:
+                if old not in body:
+                    raise ExtractError('%s: body replace anchor lost: %r' % (fnrec.name, old))
+                body = body.replace(old, new)
+                asm.manual.append('%s: %r => %r' % (fnrec.key, old, new))
+            contract['bodyrep'] = []
             body = rw.apply_all(body, opts)
+            n_cr = len(re.findall(r'crate::Result<', sig + body))
+            if n_cr:
+                sig = sig.replace('crate::Result<', 'crate::cr::Result<')
+                body = body.replace('crate::Result<', 'crate::cr::Result<')
+                rw.note('crate::Result->crate::cr::Result (alias module)', n_cr)
             if kv.get('vis'):
                 sig = re.sub(r'^(pub(\s*\([^)]*\))?\s+)?', kv['vis'] + ' ', sig.strip(), count=1)
             emit_fn(asm, fnrec, sig, body, contract, kv.get('ret', 'r'))
